@@ -3,10 +3,12 @@
    types, andb/orb are inlined; N, positive, nat stay inductive datatypes.  No Extract Constant. *)
 From Coq Require Extraction.
 From Coq Require Import ExtrOcamlBasic.
-From Akd Require Import Bits NodeLabel ElemSet Marker.
+From Akd Require Import Bits NodeLabel ElemSet Marker Blake3 Hashing Tree Insert.
 
 Extraction "../extract/model.ml"
   is_prefix_of get_prefix get_longest_common_prefix get_prefix_ordering nl_cmp
   empty_label_whatsapp empty_label_experimental nl_of_bits bits_of
   eset_from eset_partition eset_lcp eset_contains_prefix
-  get_marker_versions K1_class.
+  get_marker_versions K1_class
+  blake3 whatsapp experimental azks_new batch_insert hashval node_value root_hash
+  get_membership_proof get_non_membership_proof verify_membership verify_nonmembership_gen verify_nonmembership.
